@@ -1,5 +1,5 @@
 CONSTANTS
-  Stride = 1
+  Stride = 2
   Stride2 = 24
   Seed <- EnvSeed
 INIT Init
